@@ -23,7 +23,7 @@ if _LOG:
         frame = sys._getframe(2)
         while frame is not None:
             name = frame.f_code.co_filename
-            if "importlib" not in name and not name.startswith("<frozen"):
+            if "importlib" not in name and not name.startswith("<frozen") and name != __file__:
                 return name
             frame = frame.f_back
         return ""
@@ -62,3 +62,45 @@ if _LOG:
             _busy = False
 
     sys.addaudithook(_hook)
+
+    # The "import" audit event only fires when a module is actually loaded; an `import socket` executed after some
+    # other code has already loaded socket would be invisible. Every import *statement* (and importlib.import_module call)
+    # executed by a file of the package under test is therefore recorded too, cached or not.
+    _PKG = os.environ.get("RPV_PACKAGE_ROOT", "")
+    if _PKG:
+        import builtins
+        import importlib
+
+        _orig_import = builtins.__import__
+        _orig_import_module = importlib.import_module
+        _seen = set()
+
+        def _import(name, globals=None, locals=None, fromlist=(), level=0):
+            try:
+                importer = globals.get("__file__") if globals else None
+                if importer and importer.startswith(_PKG):
+                    base = name
+                    if level:
+                        package = (globals.get("__package__") or "").split(".")
+                        package = package[: len(package) - (level - 1)]
+                        base = ".".join([p for p in package if p] + ([name] if name else []))
+                    key = (importer, base, tuple(fromlist or ()))
+                    if key not in _seen:
+                        _seen.add(key)
+                        _emit({"e": "import-stmt", "module": base, "fromlist": list(fromlist or ()), "importer": importer})
+            except Exception:  # pylint: disable=broad-except
+                pass
+            return _orig_import(name, globals, locals, fromlist, level)
+
+        def _import_module(name, package=None):
+            try:
+                frame = sys._getframe(1)
+                importer = frame.f_code.co_filename
+                if importer.startswith(_PKG):
+                    _emit({"e": "import-stmt", "module": name, "fromlist": [], "importer": importer, "dynamic": True})
+            except Exception:  # pylint: disable=broad-except
+                pass
+            return _orig_import_module(name, package)
+
+        builtins.__import__ = _import
+        importlib.import_module = _import_module
